@@ -1,4 +1,5 @@
 import LentilVerif.Model.Propagate
+import LentilVerif.Gen.TiltFit
 /-! Executable model of tilt bookkeeping: `lentil.Tilt.shift`, first-order `lentil.DispersiveTilt.shift`,
 `Field.shift` (fold, metres -> oversampled pixels, xy -> ij), `Plane.ptt_vector` and the arithmetic of
 `Plane.fit_tilt` (the least-squares coefficients themselves come from `np.linalg.lstsq`, a trusted contract: the model
@@ -18,12 +19,12 @@ section
 variable [Add R] [Sub R] [Mul R] [Div R] [Neg R] [RealLike R]
 
 /-- `tilt.shift(xs, ys, z, wavelength)`.
-`Tilt.__init__` stores `self.x = y`, `self.y = x`; `Tilt.shift` returns `(xs - z*self.x, ys - z*self.y)`.
+`Tilt` (generated `Gen.tiltShift`): `__init__` stores `self.x = y`, `self.y = x`; `shift` returns `(xs - z*self.x, ys - z*self.y)`.
 `DispersiveTilt.shift`: `dist = (wavelength - dispersion[1])/dispersion[0]`, `x = dist/sqrt(1 + trace[0]**2)`,
 `y = polyval(trace, x)`, then the incoming shift is added. -/
 def TiltEl.shift (e : TiltEl R) (xs ys z wl : R) : R × R :=
   match e with
-  | .angular xArg yArg => (xs - z * yArg, ys - z * xArg)
+  | .angular xArg yArg => Gen.tiltShift xArg yArg xs ys z
   | .dispersive1 t0 t1 d0 d1 =>
       let dist := (wl - d1) / d0
       let x := dist / RealLike.sqrt (RealLike.ofInt 1 + t0 * t0)
@@ -38,32 +39,53 @@ def foldShift (ts : List (TiltEl R)) (z wl : R) : R × R :=
 `out = x/pixelscale[1]*oversample, y/pixelscale[0]*oversample`; `'ij'` gives `(-out[1], out[0])` -/
 def fieldShift (ts : List (TiltEl R)) (z wl du0 du1 : R) (os : Int) (ij : Bool) : R × R :=
   let p := foldShift ts z wl
-  let out := (p.1 / du1 * RealLike.ofInt os, p.2 / du0 * RealLike.ofInt os)
-  if ij then (-out.2, out.1) else out
+  let out := Gen.fieldShiftOut p.1 p.2 du0 du1 (RealLike.ofInt os)
+  if ij then Gen.fieldShiftIJ out.1 out.2 else out
 
-/-- row `k` of `Plane.ptt_vector` for one mask at array index `(i, j)` of an `s0 x s1` plane:
-`[1, r*px0, -c*px1] * mask` with `(r, c) = mesh(shape)` = index minus `floor(n/2)` -/
-def pttBasis (s0 s1 : Int) (px0 px1 : R) (mask : Int → Int → R) (k : Nat) (i j : Int) : R :=
-  (match k with
-   | 0 => RealLike.ofInt 1
-   | 1 => RealLike.ofInt (cc s0 i) * px0
-   | _ => -(RealLike.ofInt (cc s1 j)) * px1) * mask i j
+/-- entry `k` (0, 1, 2) of a triple -/
+def tripleGet (t : R × R × R) (k : Int) : R := if k = 0 then t.1 else if k = 1 then t.2.1 else t.2.2
 
-/-- the OPD that `fit_tilt` subtracts for coefficients `(t1, t2)`: `einsum('ij,i->j', ptt_vector[1:3], t[1:3])` -/
-def tiltRamp (s0 s1 : Int) (px0 px1 : R) (mask : Int → Int → R) (t1 t2 : R) (i j : Int) : R :=
-  pttBasis s0 s1 px0 px1 mask 1 i j * t1 + pttBasis s0 s1 px0 px1 mask 2 i j * t2
+/-- row `k` of `Plane.ptt_vector` for one mask at array index `(i, j)` of an `s0 x s1` plane: the generated unmasked row
+(`Gen.pttRow`: `[1, r*px0, -c*px1]`) times the mask, `(r, c) = mesh(shape)` = index minus `floor(n/2)` -/
+def pttBasis (s0 s1 : Int) (px0 px1 : R) (mask : Int → Int → R) (k : Int) (i j : Int) : R :=
+  tripleGet (Gen.pttRow (RealLike.ofInt 1) (RealLike.ofInt (cc s0 i)) (RealLike.ofInt (cc s1 j)) px0 px1) k * mask i j
 
-/-- `fit_tilt`, one mask: `opd -= ramp`; the recorded element is `Tilt(x=t1, y=t2)` -/
-def fitTiltOpd (s0 s1 : Int) (px0 px1 : R) (mask opd : Int → Int → R) (t1 t2 : R) : Int → Int → R :=
-  fun i j => opd i j - tiltRamp s0 s1 px0 px1 mask t1 t2 i j
-
-def fitTiltRecord (t1 t2 : R) : TiltEl R := .angular t1 t2
+/-- SPECIFICATION: the OPD ramp equivalent to a tilt of `thx` about x and `thy` about y on the mask,
+`(thx * r * px0 - thy * c * px1) * mask` (see `C04.ramp_is_opd_ramp`, `C04.fieldShift_angular`) -/
+def tiltRamp (s0 s1 : Int) (px0 px1 : R) (mask : Int → Int → R) (thx thy : R) (i j : Int) : R :=
+  (thx * RealLike.ofInt (cc s0 i) * px0 - thy * RealLike.ofInt (cc s1 j) * px1) * mask i j
 end
 
-/-- `fit_tilt`, segmented: `opd = sum_seg (opd - ramp_seg) * mask_seg` -/
-def fitTiltOpdSeg [Add R] [Sub R] [Mul R] [Div R] [Neg R] [RealLike R] [Zero R] (s0 s1 : Int) (px0 px1 : R)
-    (segs : List ((Int → Int → R) × R × R)) (opd : Int → Int → R) : Int → Int → R :=
-  fun i j => sumList segs fun s => (opd i j - tiltRamp s0 s1 px0 px1 s.1 s.2.1 s.2.2 i j) * s.1 i j
+section fit
+variable [Add R] [Sub R] [Mul R] [Div R] [Neg R] [RealLike R] [Zero R]
+
+/-- what `fit_tilt` subtracts (one mask): `einsum('ij,i->j', ptt_vector[rows], t[coefs])` with the generated slices
+`Gen.fitSubRows`, `Gen.fitSubCoefs`; `t` is the full coefficient vector returned by `lstsq` (contract) -/
+def fitSubtract (s0 s1 : Int) (px0 px1 : R) (mask : Int → Int → R) (t : Int → R) (i j : Int) : R :=
+  sumRange (Gen.fitSubRows.2 - Gen.fitSubRows.1).toNat fun m =>
+    pttBasis s0 s1 px0 px1 mask (Gen.fitSubRows.1 + m) i j * t (Gen.fitSubCoefs.1 + m)
+
+/-- `fit_tilt`, one mask: `plane.opd -= opd_tilt` -/
+def fitTiltOpd (s0 s1 : Int) (px0 px1 : R) (mask opd : Int → Int → R) (t : Int → R) : Int → Int → R :=
+  fun i j => opd i j - fitSubtract s0 s1 px0 px1 mask t i j
+
+/-- the `(x, y)` arguments of the recorded `Tilt(x=t[·], y=t[·])` (generated indices `Gen.fitRecord`) -/
+def fitRecordXY (t : Int → R) : R × R := (t Gen.fitRecord.1, t Gen.fitRecord.2)
+def fitTiltRecord (t : Int → R) : TiltEl R := .angular (fitRecordXY t).1 (fitRecordXY t).2
+
+/-- what `fit_tilt` subtracts for segment `seg` (rows of the stacked basis `Gen.fitSegSubRows seg`, taken inside the
+segment's own block `Gen.pttSegRows seg` whose mask is `mask`) -/
+def fitSegSubtract (s0 s1 : Int) (px0 px1 : R) (seg : Int) (mask : Int → Int → R) (t : Int → R) (i j : Int) : R :=
+  sumRange ((Gen.fitSegSubRows seg).2 - (Gen.fitSegSubRows seg).1).toNat fun m =>
+    pttBasis s0 s1 px0 px1 mask ((Gen.fitSegSubRows seg).1 + m - (Gen.pttSegRows seg).1) i j * t (Gen.fitSegSubCoefs.1 + m)
+
+def fitSegRecordXY (t : Int → R) : R × R := (t Gen.fitSegRecord.1, t Gen.fitSegRecord.2)
+
+/-- `fit_tilt`, segmented: `opd = sum_seg (opd - seg_tilt) * mask[seg]`; `segs` = (segment index, mask, coefficients) -/
+def fitTiltOpdSeg (s0 s1 : Int) (px0 px1 : R) (segs : List (Int × (Int → Int → R) × (Int → R))) (opd : Int → Int → R) :
+    Int → Int → R :=
+  fun i j => sumList segs fun s => (opd i j - fitSegSubtract s0 s1 px0 px1 s.1 s.2.1 s.2.2 i j) * s.2.1 i j
+end fit
 
 section ramp
 variable {K : Type} [Add R] [Sub R] [Mul R] [Neg R] [RealLike R] [Mul K] [CxLike K R]
@@ -74,26 +96,32 @@ def rampField (f : Fld K) (αr αc sr sc : R) : Fld K :=
       ((CxLike.expI (RealLike.twoPi * αr * RealLike.ofInt (cc f.arr.s0 x + f.o0) * sr) : K) *
        CxLike.expI (RealLike.twoPi * αc * RealLike.ofInt (cc f.arr.s1 y + f.o1) * sc)) } }
 
+
+/-- the complex field a plane contributes on one slice (`Plane.multiply`: `amp * exp(2 pi i opd / wavelength)` at
+`slice_offset`), as a function of slice-local indices; the global coordinate of index `(x, y)` is
+`(cc s0 x + o0, cc s1 y + o1)` = the plane's mesh coordinate of that pixel (C03 `slice_offset_embeds`) -/
+def phasorField [Div R] (amp : Int → Int → K) (opd : Int → Int → R) (wl : R) (s0 s1 o0 o1 : Int) : Fld K :=
+  { arr := { s0 := s0, s1 := s1, get := fun x y => amp x y * CxLike.expI (RealLike.twoPi * opd x y / wl) }, o0 := o0, o1 := o1 }
 end ramp
 
 section history
 variable [Add R] [Sub R] [Mul R] [Div R] [Neg R] [RealLike R] [Zero R]
 /-- a plane's OPD/tilt history: OPD updates and tilt fits (with whatever coefficients the solver returned) -/
-inductive Op (R : Type) where
+inductive TiltOp (R : Type) where
   | update (d : Int → Int → R)
-  | fit (t1 t2 : R)
+  | fit (t : Int → R)
 
 /-- state after a history: current OPD and the recorded tilts, oldest first -/
-def run (s0 s1 : Int) (px0 px1 : R) (mask : Int → Int → R) :
-    List (Op R) → (Int → Int → R) × List (R × R) → (Int → Int → R) × List (R × R)
+def tiltRun (s0 s1 : Int) (px0 px1 : R) (mask : Int → Int → R) :
+    List (TiltOp R) → (Int → Int → R) × List (R × R) → (Int → Int → R) × List (R × R)
   | [], st => st
-  | Op.update d :: ops, (opd, ts) => run s0 s1 px0 px1 mask ops (fun i j => opd i j + d i j, ts)
-  | Op.fit t1 t2 :: ops, (opd, ts) => run s0 s1 px0 px1 mask ops (fitTiltOpd s0 s1 px0 px1 mask opd t1 t2, ts ++ [(t1, t2)])
+  | TiltOp.update d :: ops, (opd, ts) => tiltRun s0 s1 px0 px1 mask ops (fun i j => opd i j + d i j, ts)
+  | TiltOp.fit t :: ops, (opd, ts) => tiltRun s0 s1 px0 px1 mask ops (fitTiltOpd s0 s1 px0 px1 mask opd t, ts ++ [fitRecordXY t])
 
-def updatesSum : List (Op R) → Int → Int → R
+def tiltUpdatesSum : List (TiltOp R) → Int → Int → R
   | [], _, _ => 0
-  | Op.update d :: ops, i, j => d i j + updatesSum ops i j
-  | Op.fit _ _ :: ops, i, j => updatesSum ops i j
+  | TiltOp.update d :: ops, i, j => d i j + tiltUpdatesSum ops i j
+  | TiltOp.fit _ :: ops, i, j => tiltUpdatesSum ops i j
 
 end history
 
